@@ -618,8 +618,8 @@ STREAM_PLANS = {
         'devs': [('nosweep', ['NoClientSweep'], SC(streams=(1,), push=1, send=0)),
                  ('closewrong', ['CloseWrongEntry'], SC(streams=(1, 2), push=0, send=0, cut=False)),
                  ('pollnosweep', ['PollNoStreamSweep'], SC(streams=(1,), push=0, send=0, poll=True))],
-        'sims': [('s2', SC(streams=(1, 2), push=2, send=2)), ('s3', SC(streams=(1, 2, 3), push=1, send=1)),
-                 ('s1', SC(streams=(1,), push=3, send=3))],
+        'sims': [('s2', SC(streams=(1, 2), push=2, send=2, bad=1)), ('s3', SC(streams=(1, 2, 3), push=1, send=1, bad=1)),
+                 ('s1', SC(streams=(1,), push=3, send=3, bad=1))],
         'scenarios': stream_scenarios,
     },
 }
@@ -717,3 +717,158 @@ def stream_core(pid, plan, tier, replay_file=None, models=True):
 
 for _p in STREAM_PLANS:
     REGISTRY[_p] = stream_check
+
+
+# ---------------------------------------------------------------------------
+# C07: wire formats (Wire.tla as generator and oracle)
+def wire_vectors(tier, tag):
+    import re as _re
+    wd = scratch('wire_' + tag)
+    cfg = 'SPECIFICATION Spec\nCONSTANTS Tier = "%s"\nINVARIANTS VarintWellFormed UpgradeInjective\nCONSTRAINT Emit\nCHECK_DEADLOCK FALSE\n' % tier
+    res = run_tlc(wd, 'Wire.tla', cfg, ['Wire.tla'], workers=1, timeout=1200)
+    if not res['complete']:
+        raise Machinery('Wire.tla vector generation failed:\n' + res['out'][-2000:])
+    seen, lines = set(), []
+    for m in _re.finditer(r'^<<"VEC", "(.*)">>$', res['out'], _re.M):
+        sline = m.group(1).replace('\\"', '"').replace('\\\\', '\\')
+        if sline not in seen:
+            seen.add(sline); lines.append(sline)
+    path = os.path.join(wd, 'vecs.ndjson')
+    open(path, 'w').write('\n'.join(lines) + '\n')
+    return wd, path, len(lines), res
+
+def wire_check(pid, tier, replay_file=None):
+    t0 = time.time()
+    vh = build_harness()
+    wd, path, n, res = wire_vectors(tier, pid)
+    rc, o = sh([vh, 'wirecheck', '-in', path, '-out', os.path.join(wd, 'res.json')], cwd=wd, timeout=1800, env=dict(os.environ, GOTRACEBACK='all'))
+    violations = []
+    if rc != 0:
+        if cf.is_lib_crash(o):
+            i = o.find('panic:')
+            violations.append({'property': pid, 'signature': 'crash:' + o[i:i + 80], 'summary': '%s: the library crashed on a header vector: %s' % (pid, o[i:i + 200]),
+                               'schedule': None, 'finding': {'kind': 'crash', 'panic': o[i:i + 2500]}, 'trace': []})
+            r = {'checked': 0, 'by_encoder': {}, 'failures': [], 'samples': []}
+        else:
+            raise Machinery('wirecheck failed (rc=%d):\n%s' % (rc, o[-2000:]))
+    else:
+        r = json.load(open(os.path.join(wd, 'res.json')))
+    for fl in (r.get('failures') or [])[:8]:
+        violations.append({'property': pid, 'signature': 'wire:' + ' '.join(fl.split()[:2]), 'summary': '%s: %s' % (pid, fl), 'schedule': None,
+                           'finding': {'kind': 'vector', 'failure': fl}, 'trace': []})
+    cov = {'evaluations': r['checked'], 'distinct_nontrivial': n, 'exhaustive': True,
+           'rule': ('vectors are the states TLC enumerates from spec/Wire.tla (tier %s): one header field at a time over its varint boundaries '
+                    '(sequence numbers 0..2^64-1 as base-128 digit strings, lengths 0/1/127/128/129/16383/16384/2^21-1/2^21), 4 encoders x request/response x '
+                    'scratch-buffer classes, all 32 upgrade flag combinations; each vector carries the bytes the documented format prescribes; distinct = distinct TLC states; '
+                    'every vector is non-trivial (it exercises encode, decode and an independent reader of the format)') % tier,
+           'states': res['distinct'], 'transitions': res['states'], 'by_encoder': r.get('by_encoder'), 'samples': (r.get('samples') or [])[:3] or ['none']}
+    shutil.rmtree(wd, ignore_errors=True)
+    return finish(pid, tier, 'exploration', cov, t0, violations, [],
+                  ['the documented formats are transcribed in spec/Wire.tla; the harness expands symbolic fields (len, seed) into bytes; JSON headers are compared as documents, not byte by byte',
+                   'bytes written to socket.Messages by the codecs are covered indirectly (the in-memory wire of the connection checks parses every frame with the same independent reader)'])
+
+REGISTRY['C07'] = wire_check
+
+
+# ---------------------------------------------------------------------------
+# C08: nothing a peer does can crash the process
+def c08_worker(mode, tier, wd, extra=()):
+    """Runs one C08 worker mode to completion, restarting after each crash (a crash is a finding)."""
+    vh = build_harness()
+    out, prog = os.path.join(wd, mode + '.json'), os.path.join(wd, mode + '.progress')
+    crashes, start, result = [], 0, None
+    for attempt in range(12):
+        for fn in (out, prog):
+            try: os.remove(fn)
+            except OSError: pass
+        cmd = [vh, 'c08', '-mode', mode, '-out', out, '-progress', prog, '-seed', str(seed()), '-from', str(start)] + list(extra)
+        if tier == 'thorough':
+            cmd.append('-thorough')
+        rc, o = sh(cmd, cwd=wd, timeout=2400, env=dict(os.environ, GOTRACEBACK='all', VERIF_SOCKDIR=wd))
+        if rc == 0 and os.path.exists(out):
+            result = json.load(open(out))
+            break
+        where = open(prog).read() if os.path.exists(prog) else '?'
+        if cf.is_lib_crash(o) or 'panic:' in o or 'fatal error:' in o:
+            i = o.find('panic:') if 'panic:' in o else o.find('fatal error:')
+            if 'github.com/hslam' not in o[i:i + 6000] and 'verifharness' in o[i:i + 3000] and 'hslam/rpc' not in o:
+                raise Machinery('C08 worker (%s) crashed in the harness itself:\n%s' % (mode, o[i:i + 2500]))
+            crashes.append({'mode': mode, 'case': where[:600], 'panic': o[i:i + 2500]})
+            try:
+                start = int(where.split()[0]) + (1 if mode == 'dispatch' else 0)
+                if mode != 'dispatch':
+                    start = int(where.split()[0])
+            except ValueError:
+                break
+            continue
+        raise Machinery('C08 worker %s failed (rc=%s):\n%s' % (mode, rc, o[-2500:]))
+    return result, crashes
+
+def c08_check(pid, tier, replay_file=None):
+    import re as _re
+    t0 = time.time()
+    violations = []
+    cov = {'model_runs': [], 'states': 0, 'transitions': 0, 'traces_validated_against_impl': 0, 'samples': [], 'worker_modes': {}}
+    wd = scratch('c08')
+    # 1. specifications: dispatch table (total function over 256 flag bytes x method x args x stream) and the teardown protocol
+    res = run_tlc(wd, 'SrvDispatch.tla', 'SPECIFICATION DSpec\nINVARIANTS ValidCount\nCONSTRAINT Emit\nCHECK_DEADLOCK FALSE\n', ['SrvDispatch.tla'], workers=1, timeout=900)
+    if not res['complete']:
+        raise Machinery('SrvDispatch.tla failed:\n' + res['out'][-2000:])
+    seen, lines = set(), []
+    for m in _re.finditer(r'^<<"CASE", "(.*)">>$', res['out'], _re.M):
+        ln = m.group(1).replace('\\"', '"')
+        if ln not in seen:
+            seen.add(ln); lines.append(ln)
+    if tier == 'quick':      # every flag byte with a known method and decodable arguments, and a third of the rest
+        keep = []
+        for i, ln in enumerate(lines):
+            c = json.loads(ln)['c']
+            if (c['method'] == 'unary' and c['args'] == 'ok') or (c['method'] == 'stream' and c['args'] == 'empty') or i % 3 == seed() % 3:
+                keep.append(ln)
+        lines = keep
+    open(os.path.join(wd, 'cases.ndjson'), 'w').write('\n'.join(lines) + '\n')
+    cov['model_runs'].append({'spec': 'SrvDispatch', 'distinct_states': res['distinct'], 'states_generated': res['states'], 'cases_used': len(lines)})
+    cov['states'] += res['distinct']; cov['transitions'] += res['states']
+    for frames in ((4,) if tier == 'quick' else (4, 8)):
+        c = {'Frames': frames, 'Dev': set()}
+        r = run_tlc(wd, 'SrvTeardown.tla', cfg_text('Spec', c, ['NoAddAfterWaitBegin', 'HandlersDoneBeforeClose', 'NoDispatchAfterClose'], []), ['SrvTeardown.tla'], workers=4, timeout=300)
+        if r['violated'] or not r['complete']:
+            raise Machinery('the intended teardown protocol violates %s\n%s' % (r['violated'], r['out'][-1500:]))
+        cov['model_runs'].append({'spec': 'SrvTeardown', 'Frames': frames, 'distinct_states': r['distinct'], 'states_generated': r['states']})
+        cov['states'] += r['distinct']; cov['transitions'] += r['states']
+        rl = run_tlc(wd, 'SrvTeardown.tla', cfg_text('LiveSpec', c, [], ['TeardownCompletes']), ['SrvTeardown.tla'], workers=4, timeout=300)
+        if rl['violated']:
+            raise Machinery('the intended teardown protocol is not live\n' + rl['out'][-1500:])
+    rd = run_tlc(wd, 'SrvTeardown.tla', cfg_text('Spec', {'Frames': 4, 'Dev': {'WaitBeforeDrain'}}, ['NoAddAfterWaitBegin'], []), ['SrvTeardown.tla'], workers=4, timeout=300)
+    if not rd['violated']:
+        raise Machinery('deviation WaitBeforeDrain produced no counterexample (vacuity)')
+    cov['model_runs'].append({'spec': 'SrvTeardown', 'deviation': 'WaitBeforeDrain', 'violated_in_model': rd['violated'],
+                              'counterexample': [a for a, _ in error_trace(rd)]})
+    # 2. workers
+    for mode, extra in (('dispatch', ('-in', os.path.join(wd, 'cases.ndjson'))), ('bytes-server', ()), ('bytes-client', ()), ('burst', ())):
+        result, crashes = c08_worker(mode, tier, wd, extra)
+        cov['worker_modes'][mode] = {'cases': (result or {}).get('cases', 0), 'crashes': len(crashes)}
+        cov['traces_validated_against_impl'] += (result or {}).get('cases', 0)
+        for cr in crashes[:4]:
+            first = cr['panic'].splitlines()[0] if cr['panic'] else 'crash'
+            violations.append({'property': pid, 'signature': 'crash:%s:%s' % (mode, first[:60]), 'summary': 'C08: the process crashed (%s) at case %s: %s' % (mode, cr['case'][:300], first),
+                               'schedule': None, 'finding': cr, 'trace': []})
+        for fl in ((result or {}).get('failures') or [])[:5]:
+            violations.append({'property': pid, 'signature': 'c08:%s:%s' % (mode, ' '.join(fl.split()[2:6])), 'summary': 'C08 (%s): %s' % (mode, fl),
+                               'schedule': None, 'finding': {'kind': mode, 'failure': fl}, 'trace': []})
+        cov['samples'].extend(((result or {}).get('samples') or [])[:2])
+    if not cov['samples']:
+        cov['samples'] = ['none']
+    cov['evaluations'] = sum(v['cases'] for v in cov['worker_modes'].values())
+    cov['distinct_nontrivial'] = cov['evaluations']
+    cov['rule'] = ('dispatch: the cases TLC enumerates from SrvDispatch.tla (flag byte x method class x argument class x stream known), each sent as a frame to a real server in a worker process, '
+                   'response class compared with the specification, a well-formed probe must be served behind it; bytes-server / bytes-client: every truncation and single-byte corruptions '
+                   '(xor 0x01 / 0x80 / 0xFF / zero) of valid frames under each header encoder plus seeded random frames, sent to a server resp. injected as responses into a Conn with outstanding calls; '
+                   'burst: 0..N requests (unary / heartbeat / open-stream mix) then disconnect, on ServeCodec and the poll-mode branch (1-3 readers), hook stamps checked for WaitGroup.Add after Wait began; '
+                   'every case is distinct by construction; the worker process exit status is the crash oracle')
+    shutil.rmtree(wd, ignore_errors=True)
+    return finish(pid, tier, 'fault_enumeration', cov, t0, violations, [],
+                  ['a frame is what ReadMessage returns (reading R7): the length prefix handled inside hslam/socket is out of scope',
+                   'crash oracle: exit status + Go panic banner of the worker subprocess; each hostile frame is followed (at least every 25 frames) by a well-formed probe on the same or on a fresh connection'])
+
+REGISTRY['C08'] = c08_check
